@@ -311,7 +311,17 @@ Options:
 
 	/* Start ALL the things. */
 	eg, ectx := ctxerrgroup.WithContext(context.Background())
-	eg.GoContext(ectx, shell.Do)
+	eg.GoContext(ectx, func(ctx context.Context) error {
+		err := shell.Do(ctx)
+		/* With the shell gone nothing reads och any more.  Throw away
+		whatever else is sent, lest a sender with a full channel keep
+		us from ever exiting. */
+		go func() {
+			for range och {
+			}
+		}()
+		return err
+	})
 	eg.GoContext(ectx, svr.Do)
 	eg.GoContext(ectx, iob.Do)
 
